@@ -1,3 +1,4 @@
 import RaftWal.Props.C10
 #print axioms RaftWal.C10.failed_append_invisible
 #print axioms RaftWal.C10.failed_forceSeal_rolled_back
+#print axioms RaftWal.C10.failed_call_then_restart_partial
